@@ -7,6 +7,7 @@ import (
 	"go/types"
 	"sort"
 	"strings"
+	"sync"
 	"unicode/utf8"
 
 	"golang.org/x/tools/go/ssa"
@@ -108,6 +109,7 @@ type mach struct {
 	steps    int
 	maxSteps int
 	finfo    map[*ssa.Function]map[ssa.Value]int32
+	cov      map[*ssa.Function]bool
 	depth    int
 	nsym     int
 	// intercept is asked before any statically resolved call (module or not): handled=true → its result is used
@@ -129,7 +131,7 @@ type mach struct {
 }
 
 func newMach(c *Ctx) *mach {
-	return &mach{c: c, globals: map[*ssa.Global]*mv{}, inited: map[*ssa.Package]bool{}, symHeap: map[string]*mv{}, maxSteps: 400000, finfo: map[*ssa.Function]map[ssa.Value]int32{}}
+	return &mach{c: c, globals: map[*ssa.Global]*mv{}, inited: map[*ssa.Package]bool{}, symHeap: map[string]*mv{}, maxSteps: 400000, finfo: map[*ssa.Function]map[ssa.Value]int32{}, cov: map[*ssa.Function]bool{}}
 }
 
 func (m *mach) sym(name string, t types.Type) *mSym { return &mSym{name: name, typ: t} }
@@ -149,6 +151,7 @@ func (m *mach) throw(val mv, format string, a ...interface{}) {
 
 // Call runs fn on args; Go-level panics of the machine are turned into the outcome.
 func (m *mach) Call(fn *ssa.Function, args ...mv) (ret mv, out mOutcome) {
+	defer func() { crashRecord(m, fn, args, ret, out) }() // declared first: runs after the recovery below
 	defer func() {
 		if r := recover(); r != nil {
 			switch t := r.(type) {
@@ -163,6 +166,78 @@ func (m *mach) Call(fn *ssa.Function, args ...mv) (ret mv, out mOutcome) {
 	}()
 	ret = m.callFn(nil, fn, args, nil)
 	return ret, mOutcome{kind: "ok"}
+}
+
+// ---- what escaped from the entry points: panics and (nil, nil) / (value, error) results ----------------
+
+type crashEntry struct {
+	calls int
+	first string // first witness
+}
+
+var crashMu sync.Mutex
+var crashLog = map[string]*crashEntry{}
+var covered sync.Map // *ssa.Function -> true: functions entered by some abstract run
+
+func crashRecord(m *mach, fn *ssa.Function, args []mv, ret mv, out mOutcome) {
+	key := m.c.FuncKey(fn)
+	witness := ""
+	show := func() string {
+		var as []string
+		for i, a := range args {
+			if i == 0 && fn.Signature.Recv() != nil {
+				continue
+			}
+			as = append(as, mRender(a))
+		}
+		s := strings.Join(as, ", ")
+		if len(s) > 160 {
+			s = s[:160] + "…"
+		}
+		return fn.Name() + "(" + s + ")"
+	}
+	switch out.kind {
+	case "panic":
+		witness = show() + " panics: " + out.why
+	case "ok":
+		// (result, error): exactly one of them
+		res := fn.Signature.Results()
+		if tp, ok := ret.(mTuple); ok && res.Len() == 2 && res.At(1).Type().String() == "error" {
+			if _, isPtr := res.At(0).Type().Underlying().(*types.Pointer); isPtr {
+				isNil := func(v mv) (bool, bool) {
+					switch t := v.(type) {
+					case mNilT:
+						return true, true
+					case *mv:
+						return t == nil, true
+					case mIface:
+						return false, true
+					case *mSym:
+						return false, t.nonNil
+					}
+					return false, false
+				}
+				rn, rk := isNil(tp[0])
+				en, ek := isNil(tp[1])
+				if rk && ek && rn && en {
+					witness = show() + " returns neither a result nor an error"
+				} else if rk && ek && !rn && !en {
+					witness = show() + " returns both a result and an error"
+				}
+			}
+		}
+	}
+	crashMu.Lock()
+	e := crashLog[key]
+	if e == nil {
+		e = &crashEntry{}
+		crashLog[key] = e
+	}
+	e.calls++
+	if witness != "" && (e.first == "" || len(witness) < len(e.first)) {
+		e.first = witness
+	}
+	crashMu.Unlock()
 }
 
 // ---- values -----------------------------------------------------------------------------------------
@@ -285,7 +360,7 @@ func mRender(v mv) string {
 		if t == nil {
 			return "nil"
 		}
-		return fmt.Sprintf("&%p", t)
+		return "&" + renderShallow(*t, 2)
 	case *mBuilder:
 		return "builder"
 	case *mCat:
@@ -861,6 +936,10 @@ func (m *mach) callFn(caller *mframe, fn *ssa.Function, args []mv, env []mv) mv 
 	}
 	m.depth++
 	defer func() { m.depth-- }()
+	if !m.cov[fn] {
+		m.cov[fn] = true
+		covered.Store(fn, true)
+	}
 	ix := m.valueIndex(fn)
 	fr := &mframe{fn: fn, caller: caller, env: make([]mv, len(ix)), idx: ix}
 	for i, p := range fn.Params {
@@ -1853,4 +1932,41 @@ func (m *mach) explore(maxPaths int, run func() (mv, mOutcome)) []mPath {
 		paths = append(paths, mPath{conds: conds, ret: r, out: out})
 	}
 	return paths
+}
+
+// renderShallow prints the object a pointer leads to, down to a small depth (object graphs may be cyclic).
+func renderShallow(v mv, depth int) string {
+	if depth == 0 {
+		return "…"
+	}
+	switch t := v.(type) {
+	case mStruct:
+		var ps []string
+		for _, x := range t {
+			ps = append(ps, renderShallow(x, depth-1))
+		}
+		return "{" + strings.Join(ps, " ") + "}"
+	case *mv:
+		if t == nil {
+			return "nil"
+		}
+		return "&" + renderShallow(*t, depth-1)
+	case mSlice:
+		var ps []string
+		for i, x := range t.arr {
+			if i == 4 {
+				ps = append(ps, "…")
+				break
+			}
+			ps = append(ps, renderShallow(x, depth-1))
+		}
+		return "[" + strings.Join(ps, " ") + "]"
+	case mIface:
+		return renderShallow(t.v, depth)
+	case *mMap:
+		return "map"
+	case nil:
+		return "<unset>"
+	}
+	return mRender(v)
 }
